@@ -2268,6 +2268,7 @@ def install_default_intrinsics(ex):
         ex.twin = True
         return None, st
     I['v:vTwinBegin'] = vtwin
+    I['v:vTwinGap'] = lambda ex, st, args, pos: (None, st)
 
     # environment primitives whose result is not a function of the emulator state: each call yields a fresh,
     # unconstrained value (C24: a twin run that reaches one may differ)
